@@ -235,4 +235,127 @@ theorem fvCore_other (h : Handler V) (c : Cause V) (hc : c.changing = false) :
     simp [matchesFieldValues, fvCore, fvAtoms, values, valuesOther, Cause.get, holdsCode, hc, hv, hf,
       VCrit.isUnset, VCrit.isPresent, VCrit.isAbsent, VCrit.isCallable, VCrit.call, VCrit.pyEq]
 
+
+-- ---------------------------------------------------------------------------------------------
+-- "the field actually changed" (/repo 8d1358b): JSON equality refines Python equality, so the code's
+-- `bool(diffs.diff(old, new)) or old != new` IS "the two values differ as JSON values"
+
+section Changed
+open Kopf Kopf.J
+
+/-! full induction over `J` (through arrays and objects) -/
+mutual
+  theorem jInd {P : J → Prop} (hleaf : ∀ a, (∀ xs, a ≠ .arr xs) → (∀ kvs, a ≠ .obj kvs) → P a)
+      (harr : ∀ xs, (∀ x, x ∈ xs → P x) → P (.arr xs))
+      (hobj : ∀ kvs, (∀ k x, (k, x) ∈ kvs → P x) → P (.obj kvs)) : ∀ a : J, P a
+    | .null => hleaf _ (by intro _ h; cases h) (by intro _ h; cases h)
+    | .bool _ => hleaf _ (by intro _ h; cases h) (by intro _ h; cases h)
+    | .num _ => hleaf _ (by intro _ h; cases h) (by intro _ h; cases h)
+    | .str _ => hleaf _ (by intro _ h; cases h) (by intro _ h; cases h)
+    | .arr xs => harr xs (jIndList hleaf harr hobj xs)
+    | .obj kvs => hobj kvs (jIndKvs hleaf harr hobj kvs)
+  theorem jIndList {P : J → Prop} (hleaf : ∀ a, (∀ xs, a ≠ .arr xs) → (∀ kvs, a ≠ .obj kvs) → P a)
+      (harr : ∀ xs, (∀ x, x ∈ xs → P x) → P (.arr xs))
+      (hobj : ∀ kvs, (∀ k x, (k, x) ∈ kvs → P x) → P (.obj kvs)) : ∀ xs : List J, ∀ x, x ∈ xs → P x
+    | [], _, h => by cases h
+    | x' :: rest, x, h => by
+        rcases List.mem_cons.1 h with h | h
+        · cases h; exact jInd hleaf harr hobj x'
+        · exact jIndList hleaf harr hobj rest x h
+  theorem jIndKvs {P : J → Prop} (hleaf : ∀ a, (∀ xs, a ≠ .arr xs) → (∀ kvs, a ≠ .obj kvs) → P a)
+      (harr : ∀ xs, (∀ x, x ∈ xs → P x) → P (.arr xs))
+      (hobj : ∀ kvs, (∀ k x, (k, x) ∈ kvs → P x) → P (.obj kvs)) :
+      ∀ kvs : List (String × J), ∀ k x, (k, x) ∈ kvs → P x
+    | [], _, _, h => by cases h
+    | (k', x') :: rest, k, x, h => by
+        rcases List.mem_cons.1 h with h | h
+        · cases h; exact jInd hleaf harr hobj x'
+        · exact jIndKvs hleaf harr hobj rest k x h
+end
+
+/-- values that are equal as JSON values (`diffs._same`) are equal for Python's `==` (which is coarser:
+    `True == 1`) -/
+theorem pyEq_of_jsame (a : J) : ∀ b, jsame a b = true → J.pyEq a b = true := by
+  refine jInd (P := fun a => ∀ b, jsame a b = true → J.pyEq a b = true) ?_ ?_ ?_ a
+  · intro a h1 h2 b h
+    cases a with
+    | arr xs => exact absurd rfl (h1 xs)
+    | obj kvs => exact absurd rfl (h2 kvs)
+    | null => cases b <;> simp_all [J.pyEq, jsame]
+    | bool x => cases b <;> simp_all [J.pyEq, jsame]
+    | num n => cases b <;> simp_all [J.pyEq, jsame]
+    | str s => cases b <;> simp_all [J.pyEq, jsame]
+  · intro xs ih b h
+    cases b with
+    | arr ys =>
+      simp only [jsame] at h
+      simp only [J.pyEq]
+      induction xs generalizing ys with
+      | nil => cases ys <;> simp_all [J.pyEqList, jsameList]
+      | cons x xs ihl =>
+        cases ys with
+        | nil => simp [jsameList] at h
+        | cons y ys =>
+          simp only [jsameList, Bool.and_eq_true] at h
+          simp only [J.pyEqList, Bool.and_eq_true]
+          exact ⟨ih x List.mem_cons_self y h.1, ihl (fun z hz => ih z (List.mem_cons_of_mem _ hz)) ys h.2⟩
+    | _ => simp [jsame] at h
+  · intro kvs ih b h
+    cases b with
+    | obj kb =>
+      simp only [jsame, Bool.and_eq_true] at h
+      simp only [J.pyEq, Bool.and_eq_true]
+      refine ⟨h.1, ?_⟩
+      have hs := h.2
+      clear h
+      induction kvs with
+      | nil => simp [J.pyEqSub]
+      | cons kv rest ihl =>
+        obtain ⟨k, x⟩ := kv
+        simp only [jsameSub, Bool.and_eq_true] at hs
+        simp only [J.pyEqSub, Bool.and_eq_true]
+        refine ⟨?_, ihl (fun k' x' hm => ih k' x' (List.mem_cons_of_mem _ hm)) hs.2⟩
+        cases hl : J.lookup k kb with
+        | none => simp [hl] at hs
+        | some y =>
+          have h1 := hs.1
+          simp only [hl] at h1
+          simpa using ih k x List.mem_cons_self y h1
+    | _ => simp [jsame] at h
+
+end Changed
+
+/-- the law the two equalities of a value domain obey: equality as JSON values refines Python's `==`
+    (for parsed JSON: `pyEq_of_jsame`) -/
+class PyLaw (V : Type) [PyVal V] : Prop where
+  same_eq : ∀ a b : V, PyVal.same a b = true → PyVal.eq a b = true
+
+instance : PyLaw J := ⟨pyEq_of_jsame⟩
+
+/-- with the private token on a side the code compares by identity, else by `diffs.diff` OR `!=`: under
+    the law that is "the two resolved values are not the same JSON value (or not both absent)" -/
+theorem fieldChanged_eq [PyLaw V] (o n : Option V) : fieldChanged o n = !ressame o n := by
+  cases o with
+  | none => cases n <;> simp [fieldChanged, changedCore, changedAtoms, ressame]
+  | some a =>
+    cases n with
+    | none => simp [fieldChanged, changedCore, changedAtoms, ressame]
+    | some b =>
+      simp only [fieldChanged, changedCore, changedAtoms, ressame, reseq, Option.isNone_some, Bool.or_self,
+        Bool.false_eq_true, if_false]
+      cases hs : PyVal.same a b with
+      | false => simp
+      | true => simp [PyLaw.same_eq a b hs]
+
+/-- what the repair changed: before it a change was what Python's `!=` sees; every such change still is one -/
+theorem fieldChanged_of_before (o n : Option V) (h : fieldChangedBefore o n = true) : fieldChanged o n = true := by
+  cases o with
+  | none => cases n <;> simp_all [fieldChanged, fieldChangedBefore, changedCore, changedAtoms, reseq]
+  | some a =>
+    cases n with
+    | none => simp [fieldChanged, changedCore, changedAtoms]
+    | some b =>
+      simp only [fieldChangedBefore] at h
+      simp [fieldChanged, changedCore, changedAtoms, h]
+
 end Kopf.C15
